@@ -109,6 +109,7 @@ func (s *chunkSrc) Read(p []byte) (int, error) {
 type readRes struct {
 	kind  string
 	bytes []byte
+	msg   string // panic message
 }
 
 func kindOf(err error) string {
@@ -167,16 +168,18 @@ func runReal(c *Case) (res []readRes, consumed int) {
 			var n int
 			var err error
 			panicked := false
+			pmsg := ""
 			func() {
 				defer func() {
 					if x := recover(); x != nil {
 						panicked = true
+						pmsg = fmt.Sprint(x)
 					}
 				}()
 				n, err = r.Read(buf)
 			}()
 			if panicked {
-				res = append(res, readRes{kind: "panic"})
+				res = append(res, readRes{kind: "panic", msg: pmsg})
 				stop = true
 				break
 			}
@@ -335,6 +338,7 @@ func main() {
 		model string
 		kind  string
 		dur   time.Duration
+		pmsg  string
 	}
 	outs := make([]outcome, len(cases))
 	var wg sync.WaitGroup
@@ -369,15 +373,17 @@ func main() {
 					continue
 				}
 				last := "-"
+				pm := ""
 				if len(real) > 0 {
 					last = real[len(real)-1].kind
+					pm = real[len(real)-1].msg
 					if strings.HasPrefix(last, "corrupt") {
 						last = "corrupt"
 					}
 				}
 				outs[i] = outcome{diff: compare(real, rc, model, mc),
 					real:  summarize(real) + fmt.Sprintf(", consumed=%d", rc),
-					model: summarize(model) + fmt.Sprintf(", consumed=%d", mc), kind: last, dur: dur}
+					model: summarize(model) + fmt.Sprintf(", consumed=%d", mc), kind: last, dur: dur, pmsg: pm}
 			}
 			mp.in.Flush()
 			mp.cmd.Process.Kill()
@@ -388,9 +394,15 @@ func main() {
 	mism := 0
 	kinds := map[string]int{}
 	fams := map[string]int{}
-	var mf *os.File
+	var mf, pf *os.File
 	for i, c := range cases {
 		o := outs[i]
+		if o.kind == "panic" {
+			if pf == nil {
+				pf, _ = os.Create("panics.txt")
+			}
+			fmt.Fprintf(pf, "# case %d %s: the real Reader panics: %s (model: %s)\n%s\n", i, c.Name, o.pmsg, o.model, c.Line())
+		}
 		kinds[o.kind]++
 		fam := c.Name
 		if k := strings.IndexByte(fam, '/'); k >= 0 {
@@ -418,6 +430,10 @@ func main() {
 	}
 	if mf != nil {
 		mf.Close()
+	}
+	if pf != nil {
+		pf.Close()
+		fmt.Printf("the real Reader panicked in %d cases (see panics.txt)\n", kinds["panic"])
 	}
 	idx := make([]int, len(cases))
 	for i := range idx {
